@@ -31,6 +31,10 @@ type Line struct {
 	R1      []int           `json:"r1,omitempty"`
 	R2      []int           `json:"r2,omitempty"`
 	R3      []int           `json:"r3,omitempty"`
+	M0      []int           `json:"m0,omitempty"` // curved scenarios: cells with the flattening margin (natural-scale embeddings)
+	M1      []int           `json:"m1,omitempty"`
+	M2      []int           `json:"m2,omitempty"`
+	M3      []int           `json:"m3,omitempty"`
 	F       map[string]bool `json:"f,omitempty"`
 }
 
@@ -305,7 +309,7 @@ func (d Driver) Run(c *core.Ctx) error {
 		runGen(tlc.Opts{Module: "BoolOps", Config: cfg(4, 6, 1, "random", 8000, false), Seed: c.Seed}, false, false)
 		runGen(tlc.Opts{Module: "BoolOps", Config: cfg(3, 4, 2, "random", 3000, false), Seed: c.Seed + 1}, false, false)
 		runGen(tlc.Opts{Module: "BoolOps", Config: cfg(3, 5, 1, "random", 40, false), Seed: c.Seed + 2}, true, false)
-		runCurved(tlc.Opts{Module: "CurvedOps", Config: ccfg(4, 3, 1500), Seed: c.Seed + 3})
+		runCurved(tlc.Opts{Module: "CurvedOps", Config: ccfg(4, 3, 600), Seed: c.Seed + 3})
 	}
 	c.Count(0, nontriv, 0)
 	c.SetExtra("paths", n)
@@ -364,10 +368,15 @@ func runGenX(c *core.Ctx, o tlc.Opts, open, det, curved bool, n, nontriv *int64,
 				}
 				embs := embsFor(hash(key), c.Thorough())
 				if curved {
-					embs = []latgeo.Emb{latgeo.CurvedEmbeddings[int(hash(key))%len(latgeo.CurvedEmbeddings)]}
+					// one large-scale embedding (exact cells) and one natural-scale embedding (cells with the flattening margin)
+					embs = []latgeo.Emb{latgeo.CurvedEmbeddings[int(hash(key))%len(latgeo.CurvedEmbeddings)], latgeo.NaturalEmbeddings[int(hash(key)/7)%len(latgeo.NaturalEmbeddings)]}
 				}
-				for _, e := range embs {
-					s := &Scenario{Kind: "settle", S: hdr.S, Samples: hdr.Samples, P: lp, CP: cp, Open: open, Det: det, Emb: e, Exp: [4][]int{l.R0, l.R1, l.R2, l.R3}, F: l.F}
+				for ei, e := range embs {
+					exp := [4][]int{l.R0, l.R1, l.R2, l.R3}
+					if curved && ei == 1 {
+						exp = [4][]int{l.M0, l.M1, l.M2, l.M3}
+					}
+					s := &Scenario{Kind: "settle", S: hdr.S, Samples: hdr.Samples, P: lp, CP: cp, Open: open, Det: det, Emb: e, Exp: exp, F: l.F}
 					ms := exec(s, false)
 					c.Count(8, 0, 1)
 					if k%20000 == 3 {
